@@ -15,8 +15,19 @@ CHECKS = {
    text="Seeded operation histories on two real SddManagers (plain / budgeted) against a truth-table model, with the budget callback and node budget as fault seams: deadline at sampled or every k-th checkpoint and every node budget, from the clean pre-state and cumulatively; thorough adds the exhaustive 3-variable 256x256x2 operand-pair sweep with every-checkpoint interruption. Fault positions are enumerated per generated workload; workloads are sampled.",
    note="Trusts the truth-table model (<=8 variables) and enumerate_models as the observation of a handle's denotation; wmc/gradient compared only where exclusive-group variables are constrained by exactly-one; release-profile semantics.",
    technique="deterministic simulation: seeded operation histories + enumerated budget-exhaustion faults, reference-model refinement"),
+
+ "C08": dict(engine="hybsim", level="fault_enumeration", ref="6.6",
+   text="Seeded lineage DAGs (<=12 seeds, independent and exclusive groups) x valid HybridConfigs evaluated by the real hybrid controller under a simulated HybridClock: a fault-free run counts the clock readings R, then the clock jumps past every deadline at reading j for every j (strided above a cap), plus clock steps that make budgets expire mid-phase, small node budgets, compile_lineage_to_sdd_with_clock and evaluate_topk on their own. Oracle: possible-worlds enumeration; soundness only (a result may degrade, never lie).",
+   note="Trusts possible-worlds enumeration (<=4096 worlds) with tolerance 1e-9; fault positions are enumerated per generated workload, workloads are sampled; nothing is required about which variant is returned or how fast.",
+   technique="deterministic simulation: simulated clock with deadline expiry injected at every clock reading, possible-worlds oracle"),
+ "C05": dict(engine="dlsim", level="exploration", ref="6.4",
+   text="Seeded safe Datalog programs executed by all four materialisation strategies of the real Reasoner under a simulated rayon pool (size, job cuts, job order, reduce association), permuted fact and rule order and simulator-owned hash seeds; store compared with a reference least (stratified) model after every execution; a second run must derive nothing.",
+   note="Reference model is a naive fixpoint on lexical triples; negation compared only on the provenance strategy (the only one with a negative stratum); sim-rayon models rayon at job granularity.",
+   technique="deterministic simulation: simulated thread pool + order/hash perturbation, reference-model comparison"),
 }
 ENGINES = [
+  {"name": "hybsim", "path": "sim/ksim-core/src/hybsim.rs", "serves_properties": ["C08"], "kind_free_text": "lineage/controller simulator under a scripted HybridClock"},
+  {"name": "dlsim", "path": "sim/ksim-core/src/dlsim.rs", "serves_properties": ["C05", "C12", "C19"], "kind_free_text": "Datalog reasoner simulator (simulated rayon pool, hash seeds, evaluation clock)"},
   {"name": "sddsim", "path": "sim/ksim-core/src/sddsim.rs", "serves_properties": ["C07"], "kind_free_text": "operation-history simulator over SddManager with budget-closure fault injection"},
 ]
 def main():
